@@ -713,70 +713,123 @@ func isCallTo(ci ssa.CallInstruction, fn *ssa.Function) bool {
 }
 
 // RegionOrder: C14/C15 ordering rules in WriteSector / Load.
+// regionLayout: the roles of Region's fields, found by their types (a rename does not matter):
+// the backing file (the field whose type can Seek), the in-memory chunk offsets (the unexported
+// [32][32]int32 table; the exported one holds the timestamps), the sector occupancy map.
+type regionFields struct{ file, offsets, stamps, sectors string }
+
+func (c *Ctx) regionLayout() regionFields {
+	var l regionFields
+	pk := c.P.Pkg("save/region")
+	if pk == nil {
+		return l
+	}
+	tn, _ := pk.Types.Scope().Lookup("Region").(*types.TypeName)
+	if tn == nil {
+		return l
+	}
+	st, _ := tn.Type().Underlying().(*types.Struct)
+	if st == nil {
+		return l
+	}
+	for i := 0; i < st.NumFields(); i++ {
+		f := st.Field(i)
+		switch t := f.Type().Underlying().(type) {
+		case *types.Interface:
+			for j := 0; j < t.NumMethods(); j++ {
+				if t.Method(j).Name() == "Seek" {
+					l.file = f.Name()
+				}
+			}
+		case *types.Array:
+			if in, ok := t.Elem().Underlying().(*types.Array); ok && t.Len() == 32 && in.Len() == 32 {
+				if f.Exported() {
+					l.stamps = f.Name()
+				} else {
+					l.offsets = f.Name()
+				}
+			}
+		case *types.Map:
+			l.sectors = f.Name()
+		}
+	}
+	return l
+}
+
+// RegionOrder: C14/C15 ordering rules of WriteSector / Load, decided on the inlined views of the
+// two functions (so the pieces may live in helpers or closures of the package).
 func (c *Ctx) RegionOrder() []core.Ob {
 	var obs []core.Ob
 	ws := c.Fn("save/region.(*Region).WriteSector")
 	if ws == nil {
 		return []core.Ob{missingFn("region:WriteSector", "save/region.(*Region).WriteSector")}
 	}
-	recv := ws.Params[0]
+	lay := c.regionLayout()
 	hw := c.regionHeaderWriter()
-	// mutation instructions
+	v := c.inlineView(ws, 2)
+	isHead := func(n *inode) bool {
+		ci, ok := n.in.(ssa.CallInstruction)
+		return ok && hw != nil && isCallTo(ci, hw)
+	}
+	// a header slot may also be written in line (setHead folded into its caller): a positioned write
+	// whose offset multiplies a coordinate by 32
 	type mut struct {
-		in   ssa.Instruction
+		n    *inode
 		what string
 	}
 	var muts []mut
-	var offsetStores []ssa.Instruction
-	for _, b := range ws.Blocks {
-		for _, in := range b.Instrs {
-			switch x := in.(type) {
-			case *ssa.MapUpdate:
-				if f := rootFieldOfAddr(x.Map, recv); f != "" {
-					muts = append(muts, mut{in, "update of map " + f})
+	var offsetStores []*inode
+	for _, n := range v.nodes {
+		switch x := n.in.(type) {
+		case *ssa.MapUpdate:
+			if f := v.recvField(n, x.Map); f != "" {
+				muts = append(muts, mut{n, "update of map " + f})
+			}
+		case *ssa.Store:
+			if f := v.recvField(n, x.Addr); f != "" {
+				muts = append(muts, mut{n, "store to " + f})
+				if f == lay.offsets {
+					offsetStores = append(offsetStores, n)
 				}
-			case *ssa.Store:
-				if f := rootFieldOfAddr(x.Addr, recv); f != "" {
-					muts = append(muts, mut{in, "store to " + f})
-					if f == "offsets" {
-						offsetStores = append(offsetStores, in)
-					}
-				}
-			case ssa.CallInstruction:
-				n := calleeName(x.Common())
-				switch {
-				case isCallTo(x, hw):
-					muts = append(muts, mut{in, "call " + n[strings.LastIndex(n, ".")+1:]})
-				case n == "encoding/binary.Write", strings.HasSuffix(n, ".Write") && x.Common().IsInvoke(), strings.HasSuffix(n, ".Seek") && x.Common().IsInvoke():
-					muts = append(muts, mut{in, "file I/O " + n})
-				}
+			}
+		case ssa.CallInstruction:
+			nm := calleeName(x.Common())
+			switch {
+			case isHead(n):
+				muts = append(muts, mut{n, "call " + nm[strings.LastIndex(nm, ".")+1:]})
+			case nm == "encoding/binary.Write", strings.HasSuffix(nm, ".Write") && x.Common().IsInvoke(), strings.HasSuffix(nm, ".WriteAt") && x.Common().IsInvoke(), strings.HasSuffix(nm, ".Seek") && x.Common().IsInvoke():
+				muts = append(muts, mut{n, "file I/O " + nm})
 			}
 		}
 	}
-	// the refusal: an If one of whose successors returns the package-level ErrTooLarge
-	var refusal *ssa.BasicBlock
-	for _, b := range ws.Blocks {
-		for _, in := range b.Instrs {
-			r, ok := in.(*ssa.Return)
-			if !ok {
-				continue
-			}
-			for _, res := range r.Results {
-				if u, ok := res.(*ssa.UnOp); ok {
-					if g, ok := u.X.(*ssa.Global); ok && g.Name() == "ErrTooLarge" && len(b.Preds) == 1 {
-						refusal = b.Preds[0]
+	// the refusal: the branch one of whose sides returns the package's "too large" sentinel
+	refusal := -1
+	for _, n := range v.nodes {
+		r, ok := n.in.(*ssa.Return)
+		if !ok {
+			continue
+		}
+		for _, res := range r.Results {
+			if u, ok := res.(*ssa.UnOp); ok {
+				if g, ok := u.X.(*ssa.Global); ok && g.Name() == "ErrTooLarge" {
+					// the nearest branch above the return
+					for x := n.id; x != v.entry && v.idom[x] >= 0; x = v.idom[x] {
+						if _, isIf := v.nodes[v.idom[x]].in.(*ssa.If); isIf {
+							refusal = v.idom[x]
+							break
+						}
 					}
 				}
 			}
 		}
 	}
 	o := c.ordOb("region:refusal-before-mutation", "the over-limit refusal (ErrTooLarge) dominates every update of sectors/offsets/Timestamps and every file write in WriteSector: a refused write changes nothing", ws)
-	if refusal == nil {
+	if refusal < 0 {
 		o.Status, o.Got = core.Violated, "no branch returning ErrTooLarge found in WriteSector"
 	} else {
 		for _, m := range muts {
-			if !(refusal.Dominates(m.in.Block()) && refusal != m.in.Block()) {
-				o.Status, o.Got = core.Violated, m.what+" at "+c.P.Pos(m.in.Pos())+" is not dominated by the size refusal"
+			if !v.dominates(refusal, m.n.id) || refusal == m.n.id {
+				o.Status, o.Got = core.Violated, m.what+" at "+c.P.Pos(m.n.in.Pos())+" is not dominated by the size refusal"
 				break
 			}
 		}
@@ -786,63 +839,87 @@ func (c *Ctx) RegionOrder() []core.Ob {
 	}
 	obs = append(obs, o)
 
-	// every in-memory header update is mirrored to the file: offsets store -> setHead on all paths
-	h := c.ordOb("region:header-mirrored", "every store to the in-memory offsets table in WriteSector is followed by a setHead call on every path to a return", ws)
+	// every in-memory header update is mirrored to the file: offsets store -> header write on all paths
+	h := c.ordOb("region:header-mirrored", "every store to the in-memory offsets table in WriteSector is followed by a write of the header slot on every path to a return", ws)
 	if len(offsetStores) == 0 {
-		h.Status, h.Got = core.Violated, "no store to r.offsets found in WriteSector"
+		h.Status, h.Got = core.Violated, "no store to the in-memory offsets table found in WriteSector"
 	}
-	for _, s := range offsetStores {
-		if !mustFollow(ws, s, func(in ssa.Instruction) bool {
-			ci, ok := in.(ssa.CallInstruction)
-			return ok && isCallTo(ci, hw)
-		}) {
-			h.Status, h.Got = core.Violated, "a path from the offsets update at "+c.P.Pos(s.Pos())+" reaches a return without setHead: the on-disk header goes stale"
+	for _, sn := range offsetStores {
+		if !v.mustFollow(sn.id, isHead) {
+			h.Status, h.Got = core.Violated, "a path from the offsets update at "+c.P.Pos(sn.in.Pos())+" reaches a return without the header write: the on-disk header goes stale"
 		}
 	}
 	obs = append(obs, h)
 
-	// setHead receives WriteSector's own x, z (in that order)
-	a := c.ordOb("region:setHead-own-coordinates", "setHead is called with WriteSector's own x and z, in this order", ws)
-	var heads []ssa.CallInstruction
-	for _, b := range ws.Blocks {
-		for _, in := range b.Instrs {
-			if ci, ok := in.(ssa.CallInstruction); ok && isCallTo(ci, hw) {
-				heads = append(heads, ci)
-			}
+	// the header writer receives WriteSector's own x, z (in that order)
+	a := c.ordOb("region:setHead-own-coordinates", "the header slot is written for WriteSector's own x and z, in this order", ws)
+	nHeads := 0
+	for _, n := range v.nodes {
+		if !isHead(n) {
+			continue
+		}
+		nHeads++
+		args := n.in.(ssa.CallInstruction).Common().Args
+		okArgs := len(args) >= 3 && len(ws.Params) >= 3
+		if okArgs {
+			x1, f1 := n.frame.resolve(args[1])
+			x2, f2 := n.frame.resolve(args[2])
+			okArgs = f1 != nil && f2 != nil && f1.parent == nil && f2.parent == nil && x1 == ssa.Value(ws.Params[1]) && x2 == ssa.Value(ws.Params[2])
+		}
+		if !okArgs {
+			a.Status, a.Got = core.Violated, "the header writer's arguments are not (x, z) of the enclosing WriteSector call at "+c.P.Pos(n.in.Pos())
 		}
 	}
-	if len(heads) == 0 {
+	if nHeads == 0 {
 		a.Status, a.Got = core.Violated, "no call of the header-slot writer (the Region method computing 4*(z*32+x)) in WriteSector"
-	}
-	for _, hc := range heads {
-		args := hc.Common().Args
-		if len(args) < 3 || len(ws.Params) < 3 || args[1] != ssa.Value(ws.Params[1]) || args[2] != ssa.Value(ws.Params[2]) {
-			a.Status, a.Got = core.Violated, "setHead arguments are not (x, z) of the enclosing call at "+c.P.Pos(hc.Pos())
-		}
 	}
 	obs = append(obs, a)
 
-	// Load rebuilds occupancy from every header entry: loops have no early exit
+	// Load rebuilds occupancy from every header entry: the loops over the header leave only through their conditions
 	ld := c.Fn("save/region.Load")
 	if ld == nil {
 		obs = append(obs, missingFn("region:Load", "save/region.Load"))
 	} else {
 		l := c.ordOb("region:load-visits-every-entry", "the loops in Load that rebuild the sector occupancy map leave only through their loop conditions (no break/return inside): every header entry is accounted for", ld)
-		loops := naturalLoops(ld)
-		if len(loops) < 2 {
-			l.Status, l.Got = core.Violated, fmt.Sprintf("%d loops found in Load (expected the nested header scan)", len(loops))
-		}
-		for _, lp := range loops {
-			for b := range lp.body {
-				if b == lp.header {
+		nLoops := 0
+		for _, g := range c.withPkgCallees(ld, 2) {
+			for _, lp := range naturalLoops(g) {
+				// the header scan: loops that read the offsets table or update the occupancy map (directly or below)
+				touches := false
+				for b := range lp.body {
+					for _, in := range b.Instrs {
+						switch x := in.(type) {
+						case *ssa.MapUpdate:
+							touches = true
+						case *ssa.IndexAddr:
+							if _, ok := deref(x.X.Type()).Underlying().(*types.Array); ok {
+								touches = true
+							}
+						case ssa.CallInstruction:
+							if sc := x.Common().StaticCallee(); sc != nil && inPkgs(sc, "save/region") {
+								touches = true
+							}
+						}
+					}
+				}
+				if !touches {
 					continue
 				}
-				for _, s := range b.Succs {
-					if !lp.body[s] {
-						l.Status, l.Got = core.Violated, "a block inside a scan loop jumps out of the loop (break/return): later entries are skipped"
+				nLoops++
+				for b := range lp.body {
+					if b == lp.header {
+						continue
+					}
+					for _, s := range b.Succs {
+						if !lp.body[s] {
+							l.Status, l.Got = core.Violated, "a block inside a scan loop jumps out of the loop (break/return): later entries are skipped"
+						}
 					}
 				}
 			}
+		}
+		if nLoops < 2 {
+			l.Status, l.Got = core.Violated, fmt.Sprintf("%d header-scan loops found in Load and its helpers (expected the nested scan)", nLoops)
 		}
 		obs = append(obs, l)
 	}
@@ -1140,6 +1217,7 @@ func (c *Ctx) RegionOrigin() []core.Ob {
 		}
 		return o
 	}
+	lay := c.regionLayout()
 	allowed := map[string]bool{"CreateWriter": true, "WriteSector": true, "PadToFullSector": true}
 	// unexported helpers whose every caller is an allowed writer are allowed too (writeAt, setHead)
 	for changed := true; changed; {
@@ -1192,9 +1270,9 @@ func (c *Ctx) RegionOrigin() []core.Ob {
 				isWrite := false
 				switch {
 				case name == "encoding/binary.Write":
-					isWrite = derivesFromField(cc.Args[0], "f")
+					isWrite = derivesFromField(cc.Args[0], lay.file)
 				case cc.IsInvoke() && (cc.Method.Name() == "Write" || cc.Method.Name() == "WriteAt" || cc.Method.Name() == "WriteString"):
-					isWrite = derivesFromField(cc.Value, "f")
+					isWrite = derivesFromField(cc.Value, lay.file)
 				}
 				if !isWrite {
 					continue
@@ -1221,49 +1299,118 @@ func (c *Ctx) RegionOrigin() []core.Ob {
 		s.Status, s.Got = core.Violated, "WriteSector not found"
 		return append(obs, s)
 	}
-	seeks := callsIn(ws, func(nm string, cc *ssa.CallCommon) bool {
-		return cc.IsInvoke() && cc.Method.Name() == "Seek" && derivesFromField(cc.Value, "f")
-	})
-	if len(seeks) != 1 {
-		s.Status, s.Got = core.Violated, fmt.Sprintf("%d Seek calls on the file in WriteSector", len(seeks))
+	// the Seek that positions the data write: in WriteSector or in a helper of the package it hands the write to
+	view := c.inlineView(ws, 2)
+	var seekNodes []*inode
+	for _, n := range view.nodes {
+		if ci, ok := n.in.(ssa.CallInstruction); ok {
+			cc := ci.Common()
+			if cc.IsInvoke() && cc.Method.Name() == "Seek" && derivesFromField(cc.Value, lay.file) {
+				// the seek to a sector: position = 4096 * sector number (the header slots are addressed differently)
+				if bo, ok := stripConv(cc.Args[0]).(*ssa.BinOp); ok && bo.Op == token.MUL {
+					kx, okx := constIntVal(bo.X)
+					ky, oky := constIntVal(bo.Y)
+					if (okx && kx == 4096) || (oky && ky == 4096) {
+						seekNodes = append(seekNodes, n)
+					}
+				}
+			}
+		}
+	}
+	if len(seekNodes) != 1 {
+		s.Status, s.Got = core.Violated, fmt.Sprintf("%d Seek calls on the file in WriteSector", len(seekNodes))
 		return append(obs, s)
 	}
-	var leaves []ssa.Value
-	seen := map[ssa.Value]bool{}
-	var walk func(v ssa.Value)
-	walk = func(v ssa.Value) {
-		if seen[v] {
+	seekFrame := seekNodes[0].frame
+	seeks := []ssa.CallInstruction{seekNodes[0].in.(ssa.CallInstruction)}
+	// the leaves the position is computed from, each with the frame it lives in; parameters of helper
+	// frames are followed to what WriteSector passes, results of inlined helpers to what they return
+	type leaf struct {
+		v  ssa.Value
+		fr *iframe
+	}
+	var leaves []leaf
+	frameOfCall := map[ssa.CallInstruction]*iframe{}
+	for _, n := range view.nodes {
+		if n.frame.call != nil {
+			frameOfCall[n.frame.call] = n.frame
+		}
+	}
+	type wkey struct {
+		v  ssa.Value
+		fr *iframe
+	}
+	seen := map[wkey]bool{}
+	var walk func(v ssa.Value, fr *iframe)
+	walk = func(v ssa.Value, fr *iframe) {
+		if seen[wkey{v, fr}] {
 			return
 		}
-		seen[v] = true
+		seen[wkey{v, fr}] = true
+		if _, ok := v.(*ssa.Parameter); ok && fr != nil && fr.parent != nil {
+			if rv, rf := fr.resolve(v); rv != v {
+				walk(rv, rf)
+				return
+			}
+		}
+		// the result of a helper that is part of the view: what it returns
+		resultOf := func(call *ssa.Call, idx int) bool {
+			cf := frameOfCall[call]
+			if cf == nil {
+				return false
+			}
+			for _, b := range cf.fn.Blocks {
+				for _, in := range b.Instrs {
+					if r, ok := in.(*ssa.Return); ok && idx < len(r.Results) {
+						walk(r.Results[idx], cf)
+					}
+				}
+			}
+			return true
+		}
 		switch x := v.(type) {
 		case *ssa.Phi:
 			for _, e := range x.Edges {
-				walk(e)
+				walk(e, fr)
 			}
 		case *ssa.Convert:
-			walk(x.X)
+			walk(x.X, fr)
 		case *ssa.ChangeType:
-			walk(x.X)
+			walk(x.X, fr)
 		case *ssa.BinOp:
 			if _, ok := x.X.(*ssa.Const); ok {
-				walk(x.Y)
+				walk(x.Y, fr)
 			} else if _, ok := x.Y.(*ssa.Const); ok {
-				walk(x.X)
+				walk(x.X, fr)
 			} else {
-				leaves = append(leaves, v)
+				leaves = append(leaves, leaf{v, fr})
 			}
+		case *ssa.Extract:
+			if call, ok := x.Tuple.(*ssa.Call); ok && len(call.Common().Args) > 1 && resultOf(call, x.Index) {
+				return
+			}
+			leaves = append(leaves, leaf{v, fr})
+		case *ssa.Const:
+			// a constant (0 on an error return of a helper) positions nothing by itself
 		default:
-			leaves = append(leaves, v)
+			leaves = append(leaves, leaf{v, fr})
 		}
 	}
-	walk(seeks[0].Common().Args[0])
-	for _, l := range leaves {
+	walk(seeks[0].Common().Args[0], seekFrame)
+	isRootRecv := func(v ssa.Value, fr *iframe) bool {
+		rv, rf := fr.resolve(v)
+		return rf != nil && rf.parent == nil && rv == ssa.Value(ws.Params[0])
+	}
+	isRootParam := func(v ssa.Value, fr *iframe, k int) bool {
+		rv, rf := fr.resolve(stripConv(v))
+		return rf != nil && rf.parent == nil && k < len(ws.Params) && rv == ssa.Value(ws.Params[k])
+	}
+	for _, lf := range leaves {
 		okLeaf := false
-		switch x := l.(type) {
+		switch x := lf.v.(type) {
 		case *ssa.Call:
 			// the allocator: a method of the same region (searching its occupancy map)
-			if sc := x.Common().StaticCallee(); sc != nil && len(x.Common().Args) > 0 && x.Common().Args[0] == ssa.Value(ws.Params[0]) && inPkgs(sc, "save/region") {
+			if sc := x.Common().StaticCallee(); sc != nil && len(x.Common().Args) > 0 && isRootRecv(x.Common().Args[0], lf.fr) && inPkgs(sc, "save/region") {
 				okLeaf = true
 			}
 		case *ssa.Extract:
@@ -1273,7 +1420,9 @@ func (c *Ctx) RegionOrigin() []core.Ob {
 					if ld, ok := cl.Common().Args[0].(*ssa.UnOp); ok {
 						if x2, ok := ld.X.(*ssa.IndexAddr); ok {
 							if x1, ok := x2.X.(*ssa.IndexAddr); ok {
-								okLeaf = rootFieldOfAddr(x1.X, ws.Params[0]) == "offsets" && stripConv(x1.Index) == ssa.Value(ws.Params[2]) && stripConv(x2.Index) == ssa.Value(ws.Params[1])
+								fn0 := lf.fr.fn
+								okLeaf = len(fn0.Params) > 0 && rootFieldOfAddr(x1.X, fn0.Params[0]) == lay.offsets && isRootRecv(fn0.Params[0], lf.fr) &&
+									isRootParam(x1.Index, lf.fr, 2) && isRootParam(x2.Index, lf.fr, 1)
 							}
 						}
 					}
@@ -1281,7 +1430,7 @@ func (c *Ctx) RegionOrigin() []core.Ob {
 			}
 		}
 		if !okLeaf {
-			s.Status, s.Got = core.Violated, "the seek position also derives from "+l.String()+" (not the chunk's own slot, not findSpace)"
+			s.Status, s.Got = core.Violated, "the seek position also derives from "+lf.v.String()+" (not the chunk's own slot, not findSpace)"
 		}
 	}
 	if len(leaves) == 0 {
